@@ -59,7 +59,8 @@ def concretise(ds, hist, rng):
                 mp[q] = [prev[i] for i in perm]
         elif name == "ScaleW":
             # "all positive weight scale factors": of order one, and many orders of magnitude away from it
-            pres["w_scale"] = pres.get("w_scale", 1.0) * float(act[1]) * float(rng.choice([0.37, 1.0 / 3.0, 1e-3, 2.7e-6, 4.1e4]))
+            # (a factor below 1e-6 is taken as it is: weights of the order of 1e-10 are weights like any other - only their ratios matter)
+            pres["w_scale"] = pres.get("w_scale", 1.0) * float(act[1]) * (1.0 if float(act[1]) < 1e-6 else float(rng.choice([0.37, 1.0 / 3.0, 1e-3, 2.7e-6, 4.1e4])))
         elif name == "PermCol":
             n = len(ds.keys)
             p = [int(i) for i in rng.permutation(n)]
@@ -212,7 +213,7 @@ def main(ctx, replay=None):
     if len(seqs) < 10:
         raise MachineryError("too few behaviours from the simulator")
     # make sure every action occurs alone
-    for single in (["PermQ", [1, 3, 2]], ["PermM", 2, [2, 1, 3]], ["PermM", 1, [1, 3, 2]], ["ScaleW", 2], ["PermCol", [2, 1]], ["Upper"], ["PermRow", [2, 1]], ["ReorderVol", [2, 1]]):
+    for single in (["PermQ", [1, 3, 2]], ["PermM", 2, [2, 1, 3]], ["PermM", 1, [1, 3, 2]], ["ScaleW", 2], ["ScaleW", 1e-10], ["PermCol", [2, 1]], ["Upper"], ["PermRow", [2, 1]], ["ReorderVol", [2, 1]]):
         if [single] not in seqs:
             seqs.append([single])
     if ctx.tier == "quick":
